@@ -1027,7 +1027,7 @@ fn run_batch(ctx: &Ctx, tier: Tier, corpus: &Corpus, emit_log: Option<&Path>) ->
         specs.len(), total_runs, wall, ev.evaluations, ev.distinct_nontrivial, violations, log.hex()
     );
     if harness_problems > 0 {
-        println!("HARNESS-ERROR: {harness_problems} run(s) did not complete (watchdog / executor failure)");
+        println!("HARNESS-ERROR: {harness_problems} run(s) did not complete (watchdog / executor failure). A watchdog expiry means a server thread blocked somewhere the simulator has no point for - e.g. a lock without LockAcquire/LockReleased points, a join, a blocking receive. This is not a verdict.");
         return simcore::EXIT_HARNESS;
     }
     if violations > 0 {
